@@ -430,6 +430,9 @@ pub struct NetCase {
     pub heartbeat: Option<u16>,
     pub channel_max: Option<u16>,
     pub external: bool,
+    /// the URL names the loopback broker as 127.0.0.1 (false) or as the IPv6 literal [::1] (true)
+    #[serde(default)]
+    pub ipv6: bool,
 }
 
 struct Seen {
@@ -439,9 +442,23 @@ struct Seen {
     tune_ok: (u16, u32, u16),
 }
 
-fn tcp_broker(listener: TcpListener) -> Option<Seen> {
-    listener.set_nonblocking(false).ok()?;
-    let (mut s, _) = listener.accept().ok()?;
+fn tcp_broker(listener: TcpListener, client_done: std::sync::Arc<std::sync::atomic::AtomicBool>) -> Option<Seen> {
+    // wait for the client, but not beyond its own end (it may fail before it ever connects)
+    listener.set_nonblocking(true).ok()?;
+    let t0 = std::time::Instant::now();
+    let mut s = loop {
+        match listener.accept() {
+            Ok((s, _)) => break s,
+            Err(e) if e.kind() == std::io::ErrorKind::WouldBlock => {
+                if client_done.load(std::sync::atomic::Ordering::SeqCst) || t0.elapsed() > Duration::from_secs(12) {
+                    return None;
+                }
+                std::thread::sleep(Duration::from_millis(2));
+            }
+            Err(_) => return None,
+        }
+    };
+    s.set_nonblocking(false).ok()?;
     s.set_read_timeout(Some(Duration::from_secs(5))).ok()?;
     let mut dec = StreamDecoder::new();
     let mut all = Vec::new();
@@ -514,7 +531,10 @@ fn tcp_broker(listener: TcpListener) -> Option<Seen> {
 }
 
 pub fn exec_net(c: &NetCase) -> Outcome {
-    let listener = match TcpListener::bind("127.0.0.1:0") {
+    // an IPv6 loopback may not exist on the machine: such cases fall back to IPv4 (and say so)
+    let v6 = if c.ipv6 { TcpListener::bind("[::1]:0").ok() } else { None };
+    let host = if v6.is_some() { "[::1]" } else { "127.0.0.1" };
+    let listener = match v6.map(Ok).unwrap_or_else(|| TcpListener::bind("127.0.0.1:0")) {
         Ok(l) => l,
         Err(e) => {
             return Outcome {
@@ -536,7 +556,7 @@ pub fn exec_net(c: &NetCase) -> Outcome {
     }
     let uc = normalise(&Case {
         scheme: "amqp".into(),
-        host: Some("127.0.0.1".into()),
+        host: Some(host.into()),
         port: Some(port),
         user: c.user.clone(),
         pass: c.pass.clone(),
@@ -549,12 +569,15 @@ pub fn exec_net(c: &NetCase) -> Outcome {
         Ok(w) => w,
         Err(_) => return Outcome::pass(false),
     };
-    let broker = std::thread::spawn(move || tcp_broker(listener));
+    let client_done = std::sync::Arc::new(std::sync::atomic::AtomicBool::new(false));
+    let cd = client_done.clone();
+    let broker = std::thread::spawn(move || tcp_broker(listener, cd));
     let u2 = url.clone();
     let res = timed(Duration::from_secs(10), "avh-c19-net", move || {
         let conn = Connection::insecure_open(&u2)?;
         conn.close()
     });
+    client_done.store(true, std::sync::atomic::Ordering::SeqCst);
     let seen = broker.join().ok().flatten();
     match res {
         None => return Outcome::hang("net-open-hang", format!("{}: insecure_open/close did not return", url)),
@@ -589,7 +612,7 @@ pub fn exec_net(c: &NetCase) -> Outcome {
     if seen.tune_ok != (cm, 131072, hb) {
         return Outcome::fail("net-tune-ok-differs-from-url", format!("{}: TuneOk={:?}, expected ({}, 131072, {})", url, seen.tune_ok, cm, hb));
     }
-    Outcome::pass(true).label("loopback")
+    Outcome::pass(true).label(if host == "[::1]" { "loopback-ipv6-literal" } else if c.ipv6 { "no-ipv6-loopback-fell-back-to-ipv4" } else { "loopback-ipv4" })
 }
 
 fn strat_net(_t: Tier) -> BoxedStrategy<NetCase> {
@@ -602,14 +625,16 @@ fn strat_net(_t: Tier) -> BoxedStrategy<NetCase> {
         prop_oneof![1 => Just(None), 1 => Just(Some(0u16)), 2 => (30u16..65535).prop_map(Some)],
         prop_oneof![1 => Just(None), 2 => any::<u16>().prop_map(Some)],
         prop::bool::weighted(0.2),
+        prop::bool::weighted(0.3),
     )
-        .prop_map(|(user, pass, vhost, heartbeat, channel_max, external)| NetCase {
+        .prop_map(|(user, pass, vhost, heartbeat, channel_max, external, ipv6)| NetCase {
             user,
             pass,
             vhost,
             heartbeat,
             channel_max,
             external,
+            ipv6,
         })
         .boxed()
 }
@@ -712,7 +737,7 @@ pub fn parts() -> Vec<Box<dyn PartDyn>> {
         }),
         Box::new(Part::<NetCase> {
             name: "loopback",
-            rule: "Connection::insecure_open(url) against a loopback TCP broker inside the harness: StartOk mechanism/response, Open.virtual_host and TuneOk must be what the URL spells out; every case non-trivial",
+            rule: "Connection::insecure_open(url) against a loopback TCP broker inside the harness, named in the URL as 127.0.0.1 or (30 %, where the machine has an IPv6 loopback) as the literal [::1]: StartOk mechanism/response, Open.virtual_host and TuneOk must be what the URL spells out; every case non-trivial",
             cases: |t| t.pick(100, 3000),
             threads: 8,
             strategy: strat_net,
